@@ -4,7 +4,7 @@ prop=$1; patch=$2; shift 2
 cd /repo || exit 9
 git diff --quiet || { echo "repo not clean"; exit 9; }
 git apply "$patch" || { echo "patch does not apply"; exit 9; }
-/verif/check "$prop" "$@" | tail -4
+PYVC_EVIDENCE_DIR=/verif/scratch/evidence_seed /verif/check "$prop" "$@" | tail -4
 rc=$?
 git checkout -- .
 echo "seedtest exit (of tail) ignored; see VIOLATION line above"
